@@ -241,6 +241,7 @@ def check(tier):
         runner.report_divergences(chk, divs, "verification-layer correspondence (ZI.Verify.verify / incompat vs verify.py); theorems C17_incompat_iff, C17_verify, C17_errors",
                                   "inspect.signature.bind oracle accepted all %d verifications" % chk.counters.get("verifications_judged", 0))
         core.lean_failure_violation(chk)
+    core.source_obligation_violation(chk, core.source_obligations(chk, ["incompat_src_eq"]), fails)
     chk.samples.extend([lines[5], lines[7000], next(l for l in lines if l.endswith("p|0")), lines[-1]])
     return chk.finish(len(lines) * 2, chk.counters.get("multiple_failures", 0),
                       "COMPLETE grid of 64 x 64 (interface, implementation) signature pairs (req, opt in 0..3, *args?, **kw?) x {function attribute, bound method, "
